@@ -29,9 +29,9 @@ From GTgen Require Import Params.
 Local Open Scope string_scope.
 Theorem C10_reverse_server_guards : 
   rs_states = ["stateActive"; "stateClosing"; "stateClosed"] /\
-  rs_guards = [("isClosing", "s.state >= stateClosing"); ("isClosed", "s.state >= stateClosed");
-               ("addInstance", "s.state >= stateClosing"); ("Stop", "s.state == stateClosed");
-               ("GracefulStop", "s.state != stateActive")].
+  rs_guards = [("isClosing", "state >= stateClosing"); ("isClosed", "state >= stateClosed");
+               ("addInstance", "state >= stateClosing"); ("Stop", "state == stateClosed");
+               ("GracefulStop", "state != stateActive")].
 Proof. exact rs_shape. Qed.
 Print Assumptions C10_reverse_server_guards.
 
